@@ -141,6 +141,20 @@ pub fn gen_decode_history(seed: u64, name: &str, idx: u64) -> DecodeHistory {
             }
         }
     }
+    if g.chance(1, 12) {
+        // a wide code with one check that involves more than 32 bits (a small-buffer
+        // optimisation with a spill path: seeded change C10-r7-3)
+        let cols = 36 + g.below(12) as usize;
+        let rows = 3 + g.below(4) as usize;
+        h = BitMat::zeros(rows, cols);
+        for i in 0..rows {
+            let deg = if i % 2 == 1 || rows == 1 { 33 + g.below((cols - 33) as u64 + 1) as usize } else { 2 + g.below(4) as usize };
+            while h.row_weight(i) < deg {
+                let j = g.below(cols as u64) as usize;
+                h.a[i][j] = 1;
+            }
+        }
+    }
     let ncalls = 2 + g.below(19) as usize;
     let mut calls: Vec<DecodeCall> = Vec::new();
     // now and then a streak: many calls in a row that are neither codewords nor quick to
@@ -190,7 +204,9 @@ pub fn gen_decode_history(seed: u64, name: &str, idx: u64) -> DecodeHistory {
             continue;
         }
         let (llrs, family) = gen_llrs(&mut g, &h);
-        calls.push(DecodeCall { llrs, limit: *g.pick(&[0usize, 0, 1, 1, 2, 5, 20, 100]), family });
+        // (rarely a very long run: counters of eight bits wrap after 255 — seeded change C10-r7-2)
+        let limit = if g.chance(1, 25) { *g.pick(&[253usize, 255, 256, 300]) } else { *g.pick(&[0usize, 0, 1, 1, 2, 5, 20, 100]) };
+        calls.push(DecodeCall { llrs, limit, family });
     }
     DecodeHistory { name: name.to_string(), h, calls }
 }
